@@ -315,14 +315,21 @@ func (e *Eng) freshResult(resT types.Type, c *ctx) Val {
 }
 
 func (e *Eng) havocAll(st *State) {
-	e.havocAllHeaps(st, nil)
 	old := st.front()
-	st.epoch++
-	if !noFrontier {
-		fr := e.epochFrontier(st)
-		st.assume("(<= " + fr + " " + old + ")")
-		st.frontier = fr
-	}
+	e.havocGroup(st, func() {
+		e.havocAllHeaps(st, nil)
+		st.epoch++
+		if !noFrontier {
+			fr := e.epochFrontier(st)
+			if st.groupFr != "" {
+				st.assume("(= " + fr + " " + st.groupFr + ")")
+			} else {
+				st.assume("(<= " + fr + " " + old + ")")
+				st.groupFr = fr
+			}
+			st.frontier = fr
+		}
+	})
 }
 
 // callFunc dispatches a call to a statically known function or method.
@@ -333,7 +340,17 @@ func (e *Eng) callFunc(fn *types.Func, recv *Val, recvStatic types.Type, args []
 		all = append([]Val{*recv}, args...)
 	}
 	e.runHooks("before", name, recv, args, Val{}, x, c)
+	frBefore := c.st.front()
 	res := e.dispatch(fn, name, recv, args, all, resT, x, c)
+	if !noFrontier && !c.st.dead {
+		if c.st.front() == frBefore {
+			// the callee may have allocated (e.g. the object it returns): the frontier can only be lower
+			fr := e.newSym("fr", "Int")
+			c.st.assume("(<= " + fr + " " + frBefore + ")")
+			c.st.frontier = fr
+		}
+		e.existingRefs(c.st, res)
+	}
 	e.runHooks("after", name, recv, args, res, x, c)
 	return res
 }
@@ -632,6 +649,18 @@ func (e *Eng) joinOuts(outs []Out, nBase int, resT types.Type) (*State, Val) {
 				acc.allocs = append(acc.allocs, a)
 			}
 		}
+		seenK := map[string]bool{}
+		for _, a := range acc.known {
+			seenK[a] = true
+		}
+		for _, a := range o.st.known {
+			if !seenK[a] {
+				acc.known = append(acc.known, a)
+			}
+		}
+		if o.st.front() != acc.front() {
+			acc.frontier = ite(g, o.st.front(), acc.front())
+		}
 		accRet = iteVal(g, retOf(o), accRet)
 	}
 	acc.pc = append(acc.pc, guardDefs...)
@@ -821,6 +850,7 @@ func (e *Eng) applyContract(con *Contract, fi *FuncInfo, name string, recv *Val,
 		}
 		panic("spec: call to " + name + ", which is neither pure nor declared deterministic")
 	}
+	e.havocGroup(c.st, func() {
 	// effects
 	switch {
 	case con.Pure || con.Effect == "pure":
@@ -865,6 +895,7 @@ func (e *Eng) applyContract(con *Contract, fi *FuncInfo, name string, recv *Val,
 	for _, it := range con.Assigns {
 		e.havocItem(it, con, fi, env, c)
 	}
+	})
 	// ghost state that the postconditions speak about is changed by the callee
 	for _, g := range sortedKeys(c.st.ghost) {
 		if con.Extern {
@@ -1069,6 +1100,14 @@ func (e *Eng) convertVal(v Val, t types.Type, c *ctx, n ast.Node) Val {
 	case tk == KStr && v.K == KStr:
 		v.GoT = t
 		return v
+	case tk == KStr && v.K == KSlice && e.bv:
+		// bit-vector mode: indices are 64-bit vectors, bytes 8-bit vectors
+		e.declOnce("(declare-fun sofb ((Array (_ BitVec 64) (_ BitVec 8)) (_ BitVec 64) (_ BitVec 64)) Str)")
+		row := e.rowOf(c.st, v)
+		s := Val{K: KStr, T: "(sofb " + row + " " + v.Off + " " + v.Len + ")", GoT: t}
+		c.st.assume("(= (slen " + s.T + ") " + v.Len + ")")
+		c.st.assume("(forall ((i (_ BitVec 64))) (! (=> (and (bvsle (_ bv0 64) i) (bvslt i " + v.Len + ")) (= (sat " + s.T + " i) (select " + row + " (bvadd " + v.Off + " i)))) :pattern ((sat " + s.T + " i))))")
+		return s
 	case tk == KStr && v.K == KSlice:
 		e.declOnce("(declare-fun sofb ((Array Int Int) Int Int) Str)")
 		row := e.rowOf(c.st, v)
